@@ -147,8 +147,20 @@ func Explore(r *core.Run, o Options) {
 		}
 		input := n.doc
 		if !o.Mutation {
-			// parallel transitions: each call gets its own copy of the document (code that wrongly edits its input cannot disturb the others)
+			// parallel transitions: each call gets its own copy of the document and of the patch values (code that wrongly edits its
+			// input cannot disturb the other transitions - concurrent writes to one map would kill the process instead of being judged)
 			input = document.Document(rpatch.Clone(map[string]any(n.doc)).(map[string]any))
+			own := make([]patch.Patch, len(ps))
+			for i, p := range ps {
+				b, err := json.Marshal(p)
+				if err != nil {
+					core.Engine("c10: patch symbol does not serialize: %v", err)
+				}
+				if own[i], err = patch.FromBytes(b); err != nil {
+					core.Engine("c10: patch symbol does not parse back: %v", err)
+				}
+			}
+			ps = own
 		}
 		var res document.Document
 		var err error
@@ -371,14 +383,32 @@ func Explore(r *core.Run, o Options) {
 	var pairs int64
 	par(len(starts), func(i int) {
 		n := starts[i]
+		// this worker's own copies of the start document and of every patch value (see apply)
+		doc := n.doc
+		own := make([]patch.Patch, len(alphabet))
+		if !o.Mutation {
+			doc = document.Document(rpatch.Clone(map[string]any(n.doc)).(map[string]any))
+		}
+		for ai := range alphabet {
+			own[ai] = alphabet[ai].p
+			if !o.Mutation {
+				b, err := json.Marshal(alphabet[ai].p)
+				if err != nil {
+					core.Engine("c10: patch symbol does not serialize: %v", err)
+				}
+				if own[ai], err = patch.FromBytes(b); err != nil {
+					core.Engine("c10: patch symbol does not parse back: %v", err)
+				}
+			}
+		}
 		for pi := range alphabet {
-			mid, errMid := dc.ApplyPatches(n.doc, []patch.Patch{alphabet[pi].p})
+			mid, errMid := dc.ApplyPatches(doc, []patch.Patch{own[pi]})
 			for qi := range alphabet {
-				both, errBoth := dc.ApplyPatches(n.doc, []patch.Patch{alphabet[pi].p, alphabet[qi].p})
+				both, errBoth := dc.ApplyPatches(doc, []patch.Patch{own[pi], own[qi]})
 				var seq document.Document
 				var errSeq error = errMid
 				if errMid == nil {
-					seq, errSeq = dc.ApplyPatches(mid, []patch.Patch{alphabet[qi].p})
+					seq, errSeq = dc.ApplyPatches(mid, []patch.Patch{own[qi]})
 				}
 				ok := (errBoth != nil) == (errSeq != nil)
 				if ok && errBoth == nil {
